@@ -1,1 +1,14 @@
+-- all modules of the library (regenerate with tools/mkroot)
 import Kevo.Base.Bytes
+import Kevo.Base.Hash
+import Kevo.Gen.Consts
+import Kevo.Model.Block
+import Kevo.Model.Table
+import Kevo.Model.Wal
+import Kevo.Model.WalLog
+import Kevo.Proofs.Table
+import Kevo.Proofs.Wal
+import Kevo.Proofs.WalCodec
+import Kevo.Props.C09
+import Kevo.Props.C11
+import Kevo.Spec.Log
